@@ -341,8 +341,12 @@ func (e *Engine) assignTo(st *State, l ast.Expr, v Value, t types.Type) {
 			return
 		}
 		if vo.Parent() == vo.Pkg().Scope() {
-			e.abstract("assignment to package variable ignored (reads are arbitrary)")
-			return
+			// an assigned package variable lives in a heap cell of its own (see globalVar): write it there
+			if e.prog.globalsAssigned[vo] && !isErrorType(vo.Type()) {
+				e.storePlace(st, e.globalPlace(st, vo), v)
+				return
+			}
+			e.fail(l, "assignment to package variable %s that the loader did not record as assigned", vo.Name())
 		}
 		st.vars[vo] = v
 		return
